@@ -244,6 +244,17 @@ func (c *Core) forward(bp BundleDescriptor) {
 		}
 	}
 
+	// Blocks of an unknown type, which requested their removal, were only dropped from the bundle in memory within
+	// receive. A retry loads the bundle as it was stored at its reception, so they are dropped before each forwarding.
+	for i := len(bp.MustBundle().CanonicalBlocks) - 1; i >= 0; i-- {
+		var cb = &bp.MustBundle().CanonicalBlocks[i]
+
+		if !bpv7.GetExtensionBlockManager().IsKnown(cb.TypeCode()) && cb.BlockControlFlags.Has(bpv7.RemoveBlock) {
+			bp.MustBundle().CanonicalBlocks = append(
+				bp.MustBundle().CanonicalBlocks[:i], bp.MustBundle().CanonicalBlocks[i+1:]...)
+		}
+	}
+
 	if pnBlock, err := bp.MustBundle().ExtensionBlock(bpv7.ExtBlockTypePreviousNodeBlock); err == nil {
 		// Replace the PreviousNodeBlock
 		prevEid := pnBlock.Value.(*bpv7.PreviousNodeBlock).Endpoint()
